@@ -18,11 +18,14 @@ func C19(c *Ctx) int {
 	type mc struct {
 		name, types, presets string
 		acts, procs          int
+		early                int
 	}
-	runs := []mc{{"single", allTypes, "{TRUE, FALSE}", 2, 1}, {"multi", `{"task", "subProcess"}`, "{FALSE}", 2, 3}}
+	runs := []mc{{"single", allTypes, "{TRUE, FALSE}", 2, 1, 0}, {"multi", `{"task", "subProcess"}`, "{FALSE}", 2, 3, 0},
+		// the builder is laid out once or twice before the final layout (other configurations, fewer processes)
+		{"relayout", `{"task", "subProcess"}`, "{FALSE}", 1, 2, 2}}
 	if !c.Quick() {
-		runs = append(runs, mc{"single-long", `{"task", "manualTask", "subProcess", "callActivity"}`, "{TRUE, FALSE}", 4, 1},
-			mc{"long-chain", `{"task", "subProcess"}`, "{FALSE}", 12, 1})
+		runs = append(runs, mc{"single-long", `{"task", "manualTask", "subProcess", "callActivity"}`, "{TRUE, FALSE}", 4, 1, 0},
+			mc{"long-chain", `{"task", "subProcess"}`, "{FALSE}", 12, 1, 0})
 	}
 	job := &Job{Opts: JobOpts{Mode: "builds", Seed: c.Seed}}
 	for _, m := range runs {
@@ -30,7 +33,7 @@ func C19(c *Ctx) int {
 		out := filepath.Join(dir, "builds.ndjson")
 		mod := "---- MODULE MCB ----\nEXTENDS Builder\nMCConfigs == {[sx |-> 96, sy |-> 96, cg |-> 180, rg |-> 120, pg |-> 180], [sx |-> 0, sy |-> 0, cg |-> 120, rg |-> 120, pg |-> 120], [sx |-> 10, sy |-> 500, cg |-> 60, rg |-> 10, pg |-> 40]}\nMCTypes == " + m.types + "\nMCPresets == " + m.presets + "\n====\n"
 		os.WriteFile(filepath.Join(dir, "MCB.tla"), []byte(mod), 0o644)
-		cfg := fmt.Sprintf("SPECIFICATION Spec\nCONSTANTS\n  OutFile = %q\n  MaxActs = %d\n  MaxProcs = %d\n  Configs <- MCConfigs\n  TypeSet <- MCTypes\n  PresetSet <- MCPresets\nINVARIANTS NoOverlap EdgesAttach\nCONSTRAINT Record\nPOSTCONDITION Dump\nCHECK_DEADLOCK FALSE\n", out, m.acts, m.procs)
+		cfg := fmt.Sprintf("SPECIFICATION Spec\nCONSTANTS\n  OutFile = %q\n  MaxActs = %d\n  MaxProcs = %d\n  MaxEarly = %d\n  Configs <- MCConfigs\n  TypeSet <- MCTypes\n  PresetSet <- MCPresets\nINVARIANTS NoOverlap EdgesAttach\nCONSTRAINT Record\nPOSTCONDITION Dump\nCHECK_DEADLOCK FALSE\n", out, m.acts, m.procs, m.early)
 		res, err := RunTLC(dir, "MCB", cfg, TLCOpts{Workers: 1, Timeout: 20 * time.Minute})
 		if err != nil {
 			c.Infraf("Builder.tla (%s): %v", m.name, err)
@@ -90,5 +93,5 @@ func C19(c *Ctx) int {
 	if len(job.Builds) > 0 {
 		c.Samples = append(c.Samples, job.Builds[len(job.Builds)/2])
 	}
-	return c.Finish("model_checking", "Builder.tla gives the model every build must produce (chain structure, column/row layout with default sizes, process stacking) and TLC checks it for no overlap (when gaps >= node sizes) and edge attachment over all call sequences of the bounded family (all 10 activity types with and without preset ids, 1..3 processes, three layout configurations); every build is exported and replayed on the real ProcessBuilder / DefinitionBuilder / AutoLayout: ids unique, flows listed by both ends, start/end events, activities in insertion order, one shape per node at exactly the specified bounds, one edge per flow attached to its shapes, XML round trip, and the built process run to completion requesting the activities once each in insertion order", true, fs)
+	return c.Finish("model_checking", "Builder.tla gives the model every build must produce (chain structure, column/row layout with default sizes, process stacking) and TLC checks it for no overlap (when gaps >= node sizes) and edge attachment over all call sequences of the bounded family (all 10 activity types with and without preset ids, 1..3 processes, three layout configurations, 0..2 earlier AutoLayout calls on the same builder with other configurations and fewer processes); every build is exported and replayed on the real ProcessBuilder / DefinitionBuilder / AutoLayout: ids unique, flows listed by both ends, start/end events, activities in insertion order, one shape per node at exactly the specified bounds, one edge per flow attached to its shapes, XML round trip, and the built process run to completion requesting the activities once each in insertion order", true, fs)
 }
